@@ -55,7 +55,7 @@ class Recording:
 # ------------------------------------------------------------------ pattern generators
 ATOMS = ['a', 'b', 'ab', '[ab]', '.', '\\d', 'x?', 'a*', '(?:ab)+', '', '\\b', '^', '$', '\\n', 'c', '[^a]', 'a|b', '\\w+', ' ',
          'a{2}', '(?=b)', '(?<!a)', 'é', '.*?', '\\s', '(?=(b))', '(?=(?P<la>a)(b)?)', '\\b(?=(\\w+))', '(?<=(a))', '(?=(x?))', 'A', '[A-Z]b',
-         '\\\\', "\\\\'", "'", '"', '\\\\(', "it's", '\\\\"']
+         '\\\\', "\\\\'", "'", '"', '\\\\(', "it's", '\\\\"', '\\A', '\\Z', '\\B', 'a??', '(?:\\b|ab)', 'a|ab', '\\d+?']
 
 
 def gen_pattern(rnd, sequential=False):
@@ -96,6 +96,9 @@ def gen_pattern(rnd, sequential=False):
             a = '(?:%s)' % a
         parts.append(a)
     p = ''.join(parts)
+    if not sequential and rnd.random() < 0.08:
+        # an anchor that belongs to the first (or last) alternative of a top-level alternation only
+        p = rnd.choice(['\\A%s|%s', '^%s|%s', '%s|%s$', '%s|%s\\Z', '\\b%s|%s']) % (rnd.choice(['id', 'a', '#', 'b+']), p)
     if not sequential and rnd.random() < 0.2:
         p = '(?:%s)|%s' % (p, rnd.choice(['(c)', 'c', '(?P<z>c)?']))
     return p
@@ -120,6 +123,11 @@ DSL_OBJECTS = [
     lambda: Pregex('\\') + GR.Capture(QU.OneOrMore(CL.AnyWordChar())),
     lambda: Pregex("\\'") + QU.Optional(GR.Capture('q', 'qq')),
     lambda: GR.Capture(Pregex('\\')) + GR.Capture(QU.Indefinite(CL.AnyLetter()), 'w'),
+    lambda: OP.Either(AS.MatchAtStart('id'), 'no'),
+    lambda: OP.Either(GR.Capture('a'), AS.MatchAtLineEnd(GR.Capture('b', 'e'))),
+    lambda: '<' + QU.OneOrMore(CL.Any()) + '>',
+    lambda: GR.Capture(QU.OneOrMore(CL.Any(), is_greedy=False)) + AS.MatchAtLineEnd(Pregex()),
+    lambda: OP.Either('a', 'ab') + QU.Optional(GR.Capture('c'), is_greedy=False),
     lambda: Pregex('a\\') + GR.Capture(Pregex('b') | CL.AnyDigit()) if False else Pregex('a\\') + GR.Capture(CL.AnyDigit() | 'b'),
 ]
 
@@ -209,6 +217,18 @@ def exp_replace(ms, t, repl, count):
 
 
 # ------------------------------------------------------------------ the monitor
+def _short(v, raw=False, n=700):
+    r = v if raw and isinstance(v, str) else repr(v)
+    return r if len(r) <= n else r[:n // 2] + ' ...[%d chars]... ' % len(r) + r[-n // 3:]
+
+
+def _short_ctx(ctx):
+    t = ctx.get('text')
+    if isinstance(t, str) and len(t) > 2000:
+        return dict(ctx, text=t[:200] + '...[%d chars]...' % len(t) + t[-200:])
+    return ctx
+
+
 class ApiMonitor:
     def __init__(self, check):
         self.check = check
@@ -243,14 +263,14 @@ class ApiMonitor:
             want = expected
         if not ok:
             self.viols.append({'property': prop, 'symptom': 'api:%s:%s' % (method, law or ('crash' if out[0] == 'crash' else 'value')),
-                               'detail': '%s%r %r -> %r, expected %r' % (method, tuple(args), kw, out[1] if out[0] != 'ok' else out[1], want),
-                               'method': method, 'ctx': ctx, 'cache': self.cache_state(p)})
+                               'detail': '%s%s %r -> %s, expected %s' % (method, _short(tuple(args)), kw, _short(out[1]), _short(want)),
+                               'method': method, 'ctx': _short_ctx(ctx), 'cache': self.cache_state(p)})
         return out
 
     def law(self, ok, method, lawname, detail, ctx, prop):
         self.nchecks += 1
         if not ok:
-            self.viols.append({'property': prop, 'symptom': 'api:%s:%s' % (method, lawname), 'detail': detail, 'method': method, 'ctx': ctx})
+            self.viols.append({'property': prop, 'symptom': 'api:%s:%s' % (method, lawname), 'detail': _short(detail, raw=True), 'method': method, 'ctx': _short_ctx(ctx)})
 
 
 class ExpectExc:
@@ -276,8 +296,18 @@ def verify_c11(M, p, c, t, ctx):
               'matches overlap or are out of order: %r' % (spans,), ctx, 'C11')
 
 
-def verify_c12(M, p, c, t, ctx):
+def verify_c12(M, p, c, t, ctx, tmpdir=None):
     ms = list(c.finditer(t))
+    if tmpdir is not None and '\r' not in t and M.nchecks % 5 == 0:
+        # the same extraction from a file source (the instance may hold a compiled pattern at this point)
+        path = os.path.join(tmpdir, 'c12_%d.txt' % (M.nchecks % 7))
+        with open(path, 'w', encoding='utf-8', newline='') as f:
+            f.write(t)
+        kw = {'is_path': True}
+        M.call(p, 'get_captures', (path, True), kw, exp_captures(ms, True), ctx, 'C12')
+        M.call(p, 'iterate_captures_and_pos', (path, False, True), kw, exp_captures_pos(ms, False, True), ctx, 'C12')
+        M.call(p, 'get_named_captures', (path, False), kw, exp_named(ms, False), ctx, 'C12')
+        M.call(p, 'get_named_captures_and_pos', (path, True, False), kw, exp_named_pos(ms, True, False), ctx, 'C12')
     for ie in (True, False):
         M.call(p, 'get_captures', (t, ie), {}, exp_captures(ms, ie), ctx, 'C12')
         M.call(p, 'iterate_captures', (t,), {'include_empty': ie}, exp_captures(ms, ie), ctx, 'C12')
@@ -410,6 +440,7 @@ def verify_c14(M, p, c, t, ctx, tmpdir, serial):
 
 # ------------------------------------------------------------------ histories (W8)
 HIST_OPS = ['compile', 'gcp_true', 'gcp_false', 'purge', 'partial_iter', 'operand', 'alias', 'verify', 'verify', 'verify', 'match_only']
+HAMMER = 1100      # matching calls on one and the same instance (use counters, auto-compilation thresholds)
 
 
 def run_case(M, check, case, tmpdir):
@@ -430,6 +461,8 @@ def run_case(M, check, case, tmpdir):
         M.counts['uncompilable'] += 1
         return False
     texts = case['texts']
+    if case.get('big'):
+        texts = [('ab ' * 360000) + 'END x9 tail x']
     ctxbase = {'pat': pat, 'hist': []}
     alias = p
     serial = [0]
@@ -439,7 +472,7 @@ def run_case(M, check, case, tmpdir):
         if check == 'C11':
             verify_c11(M, p, c, t, ctx)
         elif check == 'C12':
-            verify_c12(M, p, c, t, ctx)
+            verify_c12(M, p, c, t, ctx, tmpdir)
         elif check == 'C13':
             verify_c13(M, p, c, t, ctx, case.get('sequential', False))
         elif check == 'C14':
@@ -520,6 +553,12 @@ def _history_op(M, check, p, pat, c, op, texts, ti, rnd, ctxbase, verify):
                 alias.get_compiled_pattern(True)
         elif op == 'match_only':
             p.has_match(texts[ti % len(texts)])
+        elif op == 'hammer':
+            t = texts[ti % len(texts)]
+            for k in range(HAMMER):
+                (p.has_match, p.is_exact_match, p.get_matches)[k % 3](t)
+            for t in texts:
+                verify(t)
         elif op == 'verify':
             verify(texts[ti % len(texts)])
 
@@ -536,7 +575,14 @@ def check_compiled(M, cp, pat, ctxbase, check):
         M.law(not a.error and a.key == b.key, 'get_compiled_pattern', 'tree', 'compiled from %r, pattern is %r' % (cp.pattern, pat), ctx, 'C11')
 
 
+HAMMER_CASES = [('(.+)>', ['x <first\nsecond> y', 'a\nb>\nb']), ('^b|a$', ['a\nb\na', 'b\na\nb']), ('(?P<n1>.)$', ['ab\ncd', 'x']),
+                ('<(.*?)>(\\n)?', ['<a\nb>\n<c>', '<>'])]
+
+
 def gen_case(rnd, check, tier, idx):
+    if idx < len(HAMMER_CASES) and check != 'C14':
+        pat, texts = HAMMER_CASES[idx]
+        return {'seed': rnd.randrange(1 << 30), 'sequential': False, 'pat': pat, 'texts': list(texts), 'hist': ['verify', 'hammer'] + (['compile', 'verify'] if idx % 2 else [])}
     sequential = check == 'C13' and rnd.random() < 0.6
     case = {'seed': rnd.randrange(1 << 30), 'sequential': sequential}
     if rnd.random() < 0.08 and not sequential:
@@ -566,6 +612,8 @@ def gen_case(rnd, check, tier, idx):
         case['texts'] = ['\ufeff' + case['texts'][0]] + case['texts'][1:]
     hl = rnd.choice([0, 1, 2, 3, 5, 8, 12]) if tier == 'quick' else rnd.choice([0, 2, 5, 12, 25, 40])
     case['hist'] = [rnd.choice(HIST_OPS) for _ in range(hl)]
+    if rnd.random() < 0.004 and check != 'C14':
+        case['hist'].append('hammer')
     return case
 
 
@@ -601,12 +649,16 @@ def run_shard(ctx):
     hists = set()
     truncated = False
     timeouts = 0
+    special = []
+    if check == 'C14' and shard == 0:
+        # one source longer than 2**20 characters (block-wise readers, size limits); the text is built at run time
+        special.append({'seed': 1, 'sequential': False, 'pat': 'x\\d|END', 'big': True, 'texts': [], 'hist': ['verify']})
     try:
         for i in range(n):
             if time.time() - t0 > budget:
                 truncated = True
                 break
-            case = gen_case(rnd, check, tier, i)
+            case = special.pop() if special else gen_case(rnd, check, tier, i)
             before = len(M.viols)
             # per-case watchdog: a generated pattern/text pair may send re into catastrophic backtracking (in the
             # library call or in the oracle alike); such a case is counted as a timeout, never as a verdict
